@@ -611,7 +611,7 @@ def concrete_job(pk, job):
     mod = importlib.import_module(job["module"])
     params, values = job["params"], job["values"]
     inp = ConcInputs(values)
-    lg = ConcLogic()
+    lg = ConcLogic(getattr(mod, "CONC_TOL", CONC_TOL))     # a module may demand exactness (C19: bit-exact round trip)
     ans = {"exception": None, "outputs": None, "failed": [], "assumptions_ok": True, "nonfinite": []}
     try:
         ass = mod.setup(params, inp, lg)
